@@ -24,6 +24,8 @@ type Linter struct {
 	lexers map[string]*lexer.Lexer
 	ignore *ignore
 	conf   *config.LinterConfig
+	// including holds the modules on the current include path in order to detect recursive inclusion
+	including map[string]bool
 }
 
 func New(c *config.LinterConfig, opts ...optionFunc) *Linter {
@@ -466,6 +468,22 @@ func (l *Linter) resolveFileInclusion(
 		l.Error(e.Match(INCLUDE_STATEMENT_MODULE_LOAD_FAILED))
 		return statements
 	}
+
+	// A module which includes itself (directly or through other modules) would be expanded forever
+	if l.including[module.Name] {
+		e := &LintError{
+			Severity: ERROR,
+			Token:    include.GetMeta().Token,
+			Message:  fmt.Sprintf("Module %s is included recursively", include.Module.Value),
+		}
+		l.Error(e.Match(INCLUDE_STATEMENT_MODULE_LOAD_FAILED))
+		return statements
+	}
+	if l.including == nil {
+		l.including = make(map[string]bool)
+	}
+	l.including[module.Name] = true
+	defer delete(l.including, module.Name)
 
 	if isRoot {
 		statements = l.loadVCL(module.Name, module.Data)
